@@ -38,7 +38,16 @@ type xmpReader struct {
 	r   *bufio.Reader
 	a   bool
 	eof bool // the underlying reader is exhausted: look-aheads are served from what is buffered
+
+	depth int // nesting depth of readTag
 }
+
+// maxTagDepth is the deepest nesting of elements the reader follows (XMP
+// packets nest about ten deep).
+const maxTagDepth = 512
+
+// ErrTagDepth is returned for a packet whose elements nest deeper than maxTagDepth.
+var ErrTagDepth = errors.New("error xmp tags nested too deep")
 
 // errNoAttribute: the start tag ended (after white space) where an attribute could have begun
 var errNoAttribute = errors.New("no attribute")
@@ -344,6 +353,12 @@ func (br *xmpReader) readTagValue() (buf []byte, err error) {
 }
 
 func (br *xmpReader) readTag(xmp *XMP, parent Tag) (tag Tag, err error) {
+	// one call frame per level of nesting: a packet that nests millions of
+	// start tags must end in an error, not in a stack overflow
+	if br.depth++; br.depth > maxTagDepth {
+		return tag, ErrTagDepth
+	}
+	defer func() { br.depth-- }()
 	for {
 		if tag, err = br.readTagHeader(parent); err != nil {
 			break
